@@ -1,8 +1,191 @@
 //! Verification hook (compiled only with `--cfg quinn_rs_quinn_verif`).
+//!
+//! Component `token`: the payload codec of address-validation / Retry tokens (`Token::encode` / `Token::decode`)
+//! under a transparent toy AEAD supplied by the hook (`seal(x) = x ++ reverse(nonce)`, `open` checks and strips that
+//! tag): the cryptography is an oracle, the layout is what is compared.
+//!
+//! Token description: `[0, ipv, ip.., port, lb(orig_dst_cid), secs]` Retry, `[1, ipv, ip.., secs]` Validation
+//! (`ipv` 4 or 6, followed by 4 or 16 address bytes).
+//! ops:
+//! ```text
+//!   [0, nonce(16 bytes, little endian).., desc..]   `Token::encode`              -> [0, bytes..] | [-1]
+//!   [1, bytes..]                                    `Token::decode`              -> [0, nonce(16).., desc..] | [1] (None)
+//!   [2, nonce(16).., desc..]                        encode then decode           -> as op 1
+//! ```
 #![allow(missing_docs, dead_code, unused_imports, unreachable_pub, clippy::all)]
 use super::{Ops, Outs};
+use crate::{
+    ConnectionId, Duration, UNIX_EPOCH,
+    crypto::{AeadKey, CryptoError, HandshakeTokenKey},
+    token::{Token, TokenPayload},
+};
+use std::net::{IpAddr, Ipv4Addr, Ipv6Addr, SocketAddr};
 
-/// Interpret `ops` for component `comp`; `None` if `comp` is not served by this module.
-pub(crate) fn run(_comp: &str, _ops: &Ops) -> Option<Outs> {
-    None
+struct ToyKey;
+struct ToyAead(Vec<u8>);
+
+impl HandshakeTokenKey for ToyKey {
+    fn aead_from_hkdf(&self, random_bytes: &[u8]) -> Box<dyn AeadKey> {
+        let mut tag = random_bytes.to_vec();
+        tag.reverse();
+        Box::new(ToyAead(tag))
+    }
+}
+
+impl AeadKey for ToyAead {
+    fn seal(&self, data: &mut Vec<u8>, _ad: &[u8]) -> Result<(), CryptoError> {
+        data.extend_from_slice(&self.0);
+        Ok(())
+    }
+    fn open<'a>(&self, data: &'a mut [u8], _ad: &[u8]) -> Result<&'a mut [u8], CryptoError> {
+        let n = self.0.len();
+        if data.len() < n || data[data.len() - n..] != self.0[..] {
+            return Err(CryptoError);
+        }
+        let l = data.len() - n;
+        Ok(&mut data[..l])
+    }
+}
+
+struct Rd<'a> {
+    v: &'a [i128],
+    p: usize,
+}
+
+impl<'a> Rd<'a> {
+    fn int(&mut self) -> Option<i128> {
+        let x = *self.v.get(self.p)?;
+        self.p += 1;
+        Some(x)
+    }
+    fn bytes(&mut self, n: usize) -> Option<Vec<u8>> {
+        if self.v.len() - self.p < n {
+            return None;
+        }
+        let b = self.v[self.p..self.p + n].iter().map(|x| *x as u8).collect();
+        self.p += n;
+        Some(b)
+    }
+    fn done(&self) -> bool {
+        self.p == self.v.len()
+    }
+}
+
+fn ip(r: &mut Rd<'_>) -> Option<IpAddr> {
+    match r.int()? {
+        4 => {
+            let b: [u8; 4] = r.bytes(4)?.try_into().ok()?;
+            Some(IpAddr::V4(Ipv4Addr::from(b)))
+        }
+        6 => {
+            let b: [u8; 16] = r.bytes(16)?.try_into().ok()?;
+            Some(IpAddr::V6(Ipv6Addr::from(b)))
+        }
+        _ => None,
+    }
+}
+
+fn token(r: &mut Rd<'_>) -> Option<Token> {
+    let nonce: [u8; 16] = r.bytes(16)?.try_into().ok()?;
+    let nonce = u128::from_le_bytes(nonce);
+    let payload = match r.int()? {
+        0 => {
+            let ip = ip(r)?;
+            let port = r.int()? as u16;
+            let n = r.int()?;
+            if n < 0 || n as usize > crate::MAX_CID_SIZE {
+                return None;
+            }
+            let cid = r.bytes(n as usize)?;
+            let secs = r.int()? as u64;
+            TokenPayload::Retry {
+                address: SocketAddr::new(ip, port),
+                orig_dst_cid: ConnectionId::new(&cid),
+                issued: UNIX_EPOCH + Duration::from_secs(secs),
+            }
+        }
+        1 => {
+            let ip = ip(r)?;
+            let secs = r.int()? as u64;
+            TokenPayload::Validation {
+                ip,
+                issued: UNIX_EPOCH + Duration::from_secs(secs),
+            }
+        }
+        _ => return None,
+    };
+    if !r.done() {
+        return None;
+    }
+    Some(Token::verif_with_nonce(payload, nonce))
+}
+
+fn push_ip(o: &mut Vec<i128>, ip: IpAddr) {
+    match ip {
+        IpAddr::V4(x) => {
+            o.push(4);
+            o.extend(x.octets().iter().map(|b| *b as i128));
+        }
+        IpAddr::V6(x) => {
+            o.push(6);
+            o.extend(x.octets().iter().map(|b| *b as i128));
+        }
+    }
+}
+
+fn decode(b: &[u8]) -> Vec<i128> {
+    let Some(t) = Token::verif_decode(&ToyKey, b) else {
+        return vec![1];
+    };
+    let mut o = vec![0];
+    o.extend(t.verif_nonce().to_le_bytes().iter().map(|x| *x as i128));
+    match t.payload {
+        TokenPayload::Retry {
+            address,
+            orig_dst_cid,
+            issued,
+        } => {
+            o.push(0);
+            push_ip(&mut o, address.ip());
+            o.push(address.port() as i128);
+            o.push(orig_dst_cid.len() as i128);
+            o.extend(orig_dst_cid.iter().map(|x| *x as i128));
+            o.push(issued.duration_since(UNIX_EPOCH).unwrap().as_secs() as i128);
+        }
+        TokenPayload::Validation { ip, issued } => {
+            o.push(1);
+            push_ip(&mut o, ip);
+            o.push(issued.duration_since(UNIX_EPOCH).unwrap().as_secs() as i128);
+        }
+    }
+    o
+}
+
+fn one(op: &[i128]) -> Option<Vec<i128>> {
+    let mut r = Rd { v: op, p: 1 };
+    match op[0] {
+        0 => {
+            let t = token(&mut r)?;
+            let b = t.encode(&ToyKey);
+            let mut o = vec![0];
+            o.extend(b.iter().map(|x| *x as i128));
+            Some(o)
+        }
+        1 => {
+            let b: Vec<u8> = op[1..].iter().map(|x| *x as u8).collect();
+            Some(decode(&b))
+        }
+        2 => {
+            let t = token(&mut r)?;
+            Some(decode(&t.encode(&ToyKey)))
+        }
+        _ => None,
+    }
+}
+
+pub(crate) fn run(comp: &str, ops: &Ops) -> Option<Outs> {
+    match comp {
+        "token" => Some(ops.iter().map(|op| one(op).unwrap_or(vec![-1])).collect()),
+        _ => None,
+    }
 }
